@@ -260,6 +260,25 @@ example : Spec.HavokTag.Skel.WF ⟨[115, 107], [104, 107], 0,
   simp only [List.mem_cons, List.not_mem_nil, or_false] at hb
   rcases hb with rfl | rfl <;> exact ⟨by decide, by decide⟩
 
+/-- ARBITRARY type tables, declaration part: on the encoding of any run of well-formed type
+declarations `ts` (any names, versions, parents among the types known so far, any number of members
+of any kind incl. tuple sizes and class names; any packed-integer width, any string back references)
+the reader's tag loop ends up with exactly the types the declarations describe - `members()` of each
+type = its parent's `members()` followed by its own (`Havok.buildTypes`, `Havok.toT`) -, with the
+encoder's string table as remembered strings, and continues exactly behind the declarations. -/
+theorem c16_type_table (p : Spec.HavokTag.Enc) (ts : List Spec.HavokTag.TypeDecl) (fuel : Nat) (st : Havok.St)
+    (decls : List Spec.HavokTag.TypeDecl) (items : List Spec.HavokTag.Item) (r : Bytes) (types' : List Havok.HType)
+    (hok : ∀ t ∈ ts, Havok.typeOK t = true) (hb : Havok.buildTypes st.types ts = some types') :
+    Havok.tagLoop (fuel + ts.length) st
+        (Spec.HavokTag.encItems p st.strings decls (ts.map Spec.HavokTag.Item.type ++ items) ++ r) =
+      Havok.tagLoop fuel { st with strings := Havok.tblAfter p st.strings ts, types := types' }
+        (Spec.HavokTag.encItems p (Havok.tblAfter p st.strings ts) (decls ++ ts) items ++ r) :=
+  Havok.tagLoop_types p ts fuel st decls items r types' hok hb
+
+/-- the standard table: seven declarations, `hkaSkeleton` ends up with 2 inherited + 8 own members -/
+example : Havok.buildTypes [Havok.objectType] Spec.HavokTag.stdTypes = some Havok.stdHTypes ∧
+    (∀ t ∈ Spec.HavokTag.stdTypes, Havok.typeOK t = true) ∧ Havok.hSkeleton.all.length = 10 := by decide
+
 /-! ### recorded finding `havok-unimplemented-member-kind` -/
 
 /-- `lodLevels` -/
@@ -288,6 +307,38 @@ theorem c16_skeleton_unimplemented_witness :
       some [[110, 95, 114, 111, 111, 116], [110, 95, 104, 97, 114, 97]] ∧
     Sklb.fromExisting (Spec.Sklb.encode ⟨Spec.Sklb.vOld, 0, 0, 101, 0, 0, 0, []⟩
       (Spec.HavokTag.encode ⟨0xFFFF, 1⟩ tupleFile)) = .panic := by
+  decide +kernel
+
+/-! ### recorded finding `havok-array-length-guard` -/
+
+/-- `extraBones` -/
+def n_extraBones : Bytes := [101, 120, 116, 114, 97, 66, 111, 110, 101, 115]
+
+/-- the standard skeleton file with one more member in `hkaSkeleton`, a STRUCT array of `hkaBone`, which
+the skeleton object fills with 100 elements that store nothing (both columns absent) -/
+def datalessFile : Spec.HavokTag.TagFile :=
+  open Spec.HavokTag in
+  [tRoot, tNamedVariant, tBase, tReferenced, tContainer,
+    { tSkeleton with members := tSkeleton.members ++ [⟨n_extraBones, 0x19, 0, n_hkaBone⟩] }, tBone].map Item.type ++
+  [.obj 1 [.structs 1 [.strs [n_hkaAnimationContainer], .strs [n_hkaAnimationContainer], .refs [2]]],
+   .obj 5 [.absent, .absent, .refs [3], .absent, .absent, .absent, .absent],
+   .obj 6 [.absent, .absent, .str [115, 107], .ints 0 [-1, 0],
+     .structs 2 [.strs [[110, 95, 114, 111, 111, 116], [110, 95, 104, 97, 114, 97]], .bytes [0, 1]],
+     .vecs [[0, 0, 0, 0, 0, 0, 0, 0x3F800000, 0x3F800000, 0x3F800000, 0x3F800000, 0],
+            [0x3F800000, 0, 0, 0, 0, 0, 0, 0x3F800000, 0x3F800000, 0x3F800000, 0x3F800000, 0]],
+     .absent, .absent, .absent, .absent, .structs 100 [.absent, .absent]]]
+
+/-- The finding on a concrete input: a well-formed file that uses implemented member kinds only and
+describes two bones; its last array has 100 elements but only two bytes follow its element count
+(the existence bits and the end tag), and the reader's length guard (`array_len > remaining input`,
+added against unbounded allocation) panics instead of returning the bones. -/
+theorem c16_skeleton_length_guard_witness :
+    Spec.HavokTag.wf datalessFile = true ∧ Spec.HavokTag.usesUnimplemented [] datalessFile = false ∧
+    Spec.HavokTag.hasDatalessStructArray datalessFile = true ∧
+    (Spec.HavokTag.bonesOf datalessFile).map (·.map (·.name)) =
+      some [[110, 95, 114, 111, 111, 116], [110, 95, 104, 97, 114, 97]] ∧
+    Sklb.fromExisting (Spec.Sklb.encode ⟨Spec.Sklb.vOld, 0, 0, 101, 0, 0, 0, []⟩
+      (Spec.HavokTag.encode ⟨0xFFFF, 1⟩ datalessFile)) = .panic := by
   decide +kernel
 
 end Physis.C16
